@@ -204,6 +204,15 @@ func c16Run(fs *Facts) {
 				loop = fl
 			}
 		}
+		// the count of mapped swamps: CountActiveSwamps() itself or any variable it is assigned to
+		countVars := map[string]bool{"h.CountActiveSwamps()": true}
+		unsure := false
+		ast.Inspect(gs, func(x ast.Node) bool {
+			if as, ok := x.(*ast.AssignStmt); ok && len(as.Lhs) == 1 && len(as.Rhs) == 1 && strings.HasSuffix(hy.Str(as.Rhs[0]), ".CountActiveSwamps()") {
+				countVars[hy.Str(as.Lhs[0])] = true
+			}
+			return true
+		})
 		if loop != nil && loop.Cond == nil {
 			res = Yes
 			var visit func(n ast.Node, guarded bool)
@@ -212,8 +221,19 @@ func c16Run(fs *Facts) {
 				case *ast.FuncLit:
 					return
 				case *ast.IfStmt:
-					cond := hy.Str(x.Cond)
-					g := guarded || (strings.Contains(cond, "== 0") && (strings.Contains(cond, "openedSwamps") || strings.Contains(cond, "CountActiveSwamps")))
+					cond := strings.ReplaceAll(hy.Str(x.Cond), " ", "")
+					zero := false
+					for v := range countVars {
+						for _, pat := range []string{v + "==0", v + "<1", v + "<=0", "0==" + v, "1>" + v, "0>=" + v} {
+							if strings.Contains(cond, pat) {
+								zero = true
+							}
+						}
+						if !zero && strings.Contains(cond, v) {
+							unsure = true // compares the count in a way this extractor does not know
+						}
+					}
+					g := guarded || zero
 					forced := false
 					for _, st := range x.Body.List {
 						if es, ok := st.(*ast.ExprStmt); ok && strings.Contains(hy.Str(es.X), "time.Sleep(30") {
@@ -246,6 +266,9 @@ func c16Run(fs *Facts) {
 				}
 			}
 			visit(loop.Body, false)
+			if res == No && unsure {
+				res = Unknown
+			}
 		}
 		fs.Tri("stopWaitsUntilClosed", res, where)
 	}
@@ -294,6 +317,24 @@ func c16DestroyFact(sw *File, swampPath string) (string, Tri, string) {
 		}
 		return true
 	})
+	if check != nil {
+		// the re-check must depend on nothing but the count (and the only-if-empty parameter): every conjunct is either an
+		// identifier or a "count is positive" test; anything else makes the re-check conditional on something unknown
+		for _, cj := range strings.Split(strings.ReplaceAll(sw.Str(check.Cond), " ", ""), "&&") {
+			isIdent := cj != "" && !strings.ContainsAny(cj, "()<>=!|.")
+			isCount := false
+			for _, c := range []string{"s.beaconKey.Count()", "s.CountTreasures()"} {
+				for _, t := range []string{c + ">0", c + "!=0", c + ">=1", "0<" + c} {
+					if cj == t {
+						isCount = true
+					}
+				}
+			}
+			if !isIdent && !isCount {
+				return name, Unknown, swampPath + ":" + itoa(sw.Line(check)) + " (re-check under an extra condition: " + cj + ")"
+			}
+		}
+	}
 	if check == nil {
 		return name, No, swampPath + ":" + itoa(sw.Line(waits[0]))
 	}
@@ -322,7 +363,8 @@ func c16DestroyFact(sw *File, swampPath string) (string, Tri, string) {
 			continue
 		}
 		for _, c := range sw.Calls(fd, "s.destroy") {
-			if len(c.Args) == 1 && sw.Str(c.Args[0]) == "true" && len(fd.Body.List) == 1 {
+			// the entry that asks for the re-check: its only call of destroy is destroy(true) (logging around it is fine)
+			if len(c.Args) == 1 && sw.Str(c.Args[0]) == "true" && len(sw.Calls(fd, "s.destroy")) == 1 {
 				entry = fd.Name.Name
 			}
 		}
